@@ -13,6 +13,6 @@ def jobs(tier):
 META = {
     "trusted_base": D.DFS_TRUSTED + ["FileAccess::read over a ghost file of unconstrained length and contents; vectors are heap objects of exactly size() bytes"],
     "assumptions": ["image files of at most 2^40 bytes"],
-    "outside": ["the whole-program statement (exit status in {0,1,2}, diagnostics, no signal) is over main, the libstdc++ runtime and zlib, none of which can be put under contract here", "the entry loop of CatalogFragment::valid"],
+    "outside": ["the whole-program statement (exit status in {0,1,2}, diagnostics, no signal) is over main, the libstdc++ runtime and zlib, none of which can be put under contract here", "get_entry_at_offset / get_safe_name of the catalogue"],
     "explanation": "per extracted parser function: CBMC's generated safety obligations (bounds, pointer, overflow, division) for arbitrary file bytes; decreases clauses (termination) on every loop under contract; allocation requests bounded by 1 MiB; exceptions only by value",
 }
